@@ -195,7 +195,7 @@ class C12(Check):
                    'min/max of an empty sequence with reduce=True emit None (pinned by the suite); mean of an empty sequence is outside the domain']
     ANCHORS = ['rxsci/math/sum.py', 'rxsci/math/mean.py', 'rxsci/math/min.py', 'rxsci/math/max.py', 'rxsci/math/variance.py',
                'rxsci/math/stddev.py', 'rxsci/math/formal/variance.py', 'rxsci/math/formal/stddev.py', 'rxsci/math/formal/__init__.py']
-    REQUIRED_TAGS = ['op=' + o for o in OPS] + ['plain', 'mux', 'group', 'km', 'n=0', 'n=1', 'n>=1000', 'n>1024', 'offset>=1e6', 'kind=np_int64', 'kind=np_int32', 'kind=outlier_first', 'kind=py_int_ns', 'kind=int_first', 'kind=int_float_mix', 'kind=top_binade', 'groups-of-different-magnitudes']
+    REQUIRED_TAGS = ['op=' + o for o in OPS] + ['plain', 'mux', 'group', 'km', 'n=0', 'n=1', 'n>=1000', 'n>1024', 'offset>=1e6', 'kind=np_int64', 'kind=np_int32', 'kind=outlier_first', 'kind=py_int_ns', 'kind=int_first', 'kind=int_float_mix', 'kind=top_binade', 'groups-of-different-magnitudes', 'formal-operator-streaming-over-8192-items']
     REQUIRED_OBSERVED = ['values_compared', 'stream_equals_reduce_checks']
 
     def generate(self, rng, tier, shard, nshards):
@@ -205,6 +205,11 @@ class C12(Check):
         scales = [1e-8, 1e-3, 1.0, 1.0, 1e3, 1e8]
         ns = [0, 1, 2, 3, 10, 100, 1100, 1000, 100, 2500] if tier == 'quick' else [0, 1, 2, 3, 10, 100, 1000, 1000, 2500, 10000]
         modes = ['plain', 'mux', 'group']
+        if shard == 0 or (tier == 'thorough' and shard == 1):
+            # the formal operators in STREAMING mode on one sequence of more than 8192 items (quadratic: about ten seconds), every
+            # emission judged - elsewhere only their reduce value is checked beyond 1200 items
+            yield {'op': ('fvariance', 'fstddev')[shard], 'mode': 'plain', 'km': False, 'stream_all': True, 'watchdog_s': 600,
+                   'data': {'kind': 'outlier', 'n': 8300 + shard * 500, 'offset': 1e3, 'scale': 1.0, 'dseed': rng.randrange(1 << 30)}}
         for k in range(ncases):
             op = OPS[k % len(OPS)]
             n = ns[(k // len(OPS)) % len(ns)]
@@ -275,6 +280,8 @@ class C12(Check):
             out.tags.append('offset>=1e6')
         if n > 1024:
             out.tags.append('n>1024')
+        if case.get('stream_all'):
+            out.tags.append('formal-operator-streaming-over-8192-items')
         if mode == 'group':
             # the interleaved groups live at clearly different magnitudes (1, 1e-6, 1e6 times the case's scale and offset):
             # whatever one key's aggregate leaks into another's is then far above the bound
@@ -291,7 +298,7 @@ class C12(Check):
 
         # the formal operators recompute both moments over all items after every item: O(n^2) in streaming mode.
         # Beyond 1200 items only their reduce value is checked (still against the exact statistic of all n items).
-        reduce_only = op in ('fvariance', 'fstddev') and n > 1200
+        reduce_only = op in ('fvariance', 'fstddev') and n > 1200 and not case.get('stream_all')
         if reduce_only:
             out.tags.append('reduce-only')
             stream = None
